@@ -259,6 +259,14 @@ class Ctx:
         except hypothesis.errors.FailedHealthCheck as exc:
             raise HarnessError(f"health check: {exc}") from exc
 
+    def direct(self, fn, case, label=None):
+        """Run one fixed (not generated) sub-check; a Violation is recorded, not raised."""
+        try:
+            fn(case, self)
+        except Violation as v:
+            self.violations.append({"subcheck": v.subcheck, "descriptor": v.descriptor,
+                                    "detail": v.detail, "case": jsonable(case), "label": label})
+
     def enumerate(self, cases, fn, label=None, stop_after=3):
         """Plain enumeration (finite spaces / replay pools); this shard takes every
         nshards-th case."""
@@ -454,12 +462,15 @@ def main(prop, tier, replay=None):
             "wall_s": round(time.time() - t0, 2),
             "violations": len(seen),
         }
-        (VERIF / "evidence").mkdir(exist_ok=True)
-        (VERIF / "evidence" / f"{prop}.json").write_text(json.dumps(evidence, indent=1) + "\n")
+        # evidence describes /repo itself; runs against a scratch tree (sensitivity
+        # experiments) must not overwrite it
+        evdir = VERIF / "evidence" if REPO.resolve() == pathlib.Path("/repo") else outdir / "evidence_scratch"
+        evdir.mkdir(exist_ok=True, parents=True)
+        (evdir / f"{prop}.json").write_text(json.dumps(evidence, indent=1) + "\n")
         print(f"{prop} {tier} seed={seed}: evaluations={evaluations} "
               f"distinct_nontrivial={len(nontrivial)} violations={len(seen)} "
               f"known={sum(known.values())} wall={evidence['wall_s']}s")
-        if len(nontrivial) < 2:
+        if len(nontrivial) < 2 and not seen:
             print("HARNESS ERROR: fewer than 2 non-trivial cases generated", file=sys.stderr)
             return 2
         status = 1 if seen else 0
